@@ -10,6 +10,64 @@ import time
 HERE = os.path.dirname(os.path.dirname(os.path.abspath(__file__)))
 
 
+def report(p, r, out, results, t0, fix_path=None):
+    viol = [l for l in out.split("\n") if l.startswith("VIOLATION")]
+    if fix_path:
+        viol = [fix_path(v) for v in viol]
+    results[p] = {"exit": r.returncode, "violations": viol[:3], "wall_s": round(time.time() - t0, 1)}
+    kind = "-" if r.returncode == 0 else ("no-failing-input-found" if viol and all("no-failing-input-found" in v for v in viol) else "FAILING-INPUT")
+    print("%s exit=%d %s %s" % (p, r.returncode, kind, viol[0][:140] if viol else ""))
+    for v in viol[:1]:
+        path = v.split("replay=")[1].split()[0]
+        if os.path.exists(path):
+            try:
+                rep = json.load(open(path))
+                print("    ", (rep.get("verdict") or rep.get("what") or str(rep.get("broken", ""))[:200])[:220])
+                print("    ", (rep.get("lines") or [""])[0][:200])
+            except Exception:
+                pass
+
+
+def isolated(patch, props, tier):
+    """the same, without touching /repo or /verif: the patch is applied to a scratch worktree of /repo HEAD and the checks
+    run in a private copy of /verif with VERIF_REPO pointing at that worktree (several of these may run at once)"""
+    import shutil
+    import tempfile
+    wt = tempfile.mkdtemp(prefix="seedwt-", dir="/var/tmp")
+    os.rmdir(wt)
+    vc = tempfile.mkdtemp(prefix="seedv-", dir="/var/tmp")
+    results = {}
+    try:
+        if subprocess.run(["git", "-C", "/repo", "worktree", "add", "-q", "--detach", wt, "HEAD"]).returncode != 0:
+            print("cannot create worktree")
+            return 2
+        if subprocess.run(["git", "-C", wt, "apply", patch]).returncode != 0:
+            print("patch does not apply")
+            return 2
+        subprocess.run(["rsync", "-a", "--exclude", ".git", "--exclude", "build", "--exclude", "replays", "--exclude", "seeded",
+                        HERE + "/", vc + "/"], check=True)
+        env = dict(os.environ, VERIF_REPO=wt)
+        env.pop("SEED_ISOLATED", None)
+        os.makedirs(os.path.join(HERE, "replays"), exist_ok=True)
+
+        def fix_path(v):
+            old = v.split("replay=")[1].split()[0]
+            new = os.path.join(HERE, "replays", os.path.basename(old))
+            if os.path.exists(old):
+                shutil.copy(old, new)
+            return v.replace(old, new)
+        for p in props:
+            t0 = time.time()
+            r = subprocess.run([os.path.join(vc, "check"), p, "--tier", tier], stdout=subprocess.PIPE, stderr=subprocess.STDOUT, cwd=vc, env=env)
+            report(p, r, r.stdout.decode("utf-8", "replace"), results, t0, fix_path)
+    finally:
+        subprocess.run(["git", "-C", "/repo", "worktree", "remove", "--force", wt])
+        shutil.rmtree(wt, ignore_errors=True)
+        shutil.rmtree(vc, ignore_errors=True)
+    print(json.dumps(results))
+    return 0
+
+
 def main():
     d = sys.argv[1]
     props = sys.argv[2:]
@@ -18,6 +76,8 @@ def main():
         man = json.load(open(os.path.join(HERE, "MANIFEST.json")))
         props = [c["property_id"] for c in man["checks"]]
     tier = os.environ.get("SEED_TIER", "quick")
+    if os.environ.get("SEED_ISOLATED"):
+        return isolated(patch, props, tier)
     st = subprocess.run(["git", "-C", "/repo", "status", "--porcelain", "--untracked-files=no"], stdout=subprocess.PIPE).stdout.decode().strip()
     if st:
         print("refusing: /repo has local modifications:\n" + st)
